@@ -277,9 +277,20 @@ class PyFacts:
             raise AnalysisError(f"anchor class vanished: {qual}")
         return m.classes[cn]
 
+    def prelude(self) -> ModInfo:
+        """Library-function definitions the interpreter inlines (gsa/prelude_src.txt); kept outside ``modules`` so that no
+        package-wide rule ever looks at them."""
+        if getattr(self, "_prelude", None) is None:
+            path = os.path.join(os.path.dirname(os.path.abspath(__file__)), "prelude_src.txt")
+            src = open(path, encoding="utf-8").read()
+            self._prelude = self._index(ModInfo("gsa_prelude", "gsa/prelude_src.txt", ast.parse(src), src))
+        return self._prelude
+
     def func(self, qual: str) -> FuncInfo:
         """Look up 'gherkin.parser.Parser.parse' or 'gherkin.stream.source_events.source_event'."""
         head, _, fn = qual.rpartition(".")
+        if head == "gsa_prelude":
+            return self.prelude().functions[fn]
         m = self.modules.get(head)
         if m is not None and fn in m.functions:
             return m.functions[fn]
